@@ -149,7 +149,7 @@ def finish(prop, outcome, timer, level, coverage, assumptions, extra=None):
     return code
 
 
-def run_parser_groups(prop, tag, mods, spec_list, outcome, jobs=12, harness_timeout_s=600):
+def run_parser_groups(prop, tag, mods, spec_list, outcome, jobs=12, harness_timeout_s=600, mem_gb=16):
     """Kani run over the llguidance crate overlay for the given harness modules. Adds to `outcome`; returns summary dict."""
     from . import parser_props as pp
     try:
@@ -159,7 +159,7 @@ def run_parser_groups(prop, tag, mods, spec_list, outcome, jobs=12, harness_time
         return dict(kani_wall_s=0)
     try:
         names = [s["name"] for s in spec_list]
-        res, logp, wall, build_failed = e1.run_kani(ov, "llguidance", names, jobs=jobs, harness_timeout_s=harness_timeout_s, stubbing=True, logname=tag)
+        res, logp, wall, build_failed = e1.run_kani(ov, "llguidance", names, jobs=jobs, harness_timeout_s=harness_timeout_s, stubbing=True, logname=tag, mem_gb=mem_gb)
         if build_failed:
             import subprocess
             tail = subprocess.run("grep -v '^warning' %s | grep -A8 '^error' | head -60" % logp, shell=True, capture_output=True, text=True).stdout
